@@ -22,6 +22,9 @@ var Classes = []string{"empty", "one", "small", "wide", "deep", "mid", "tall", "
 
 // GenOpts tunes Gen.
 type GenOpts struct {
+	// NumFields: exact number of w-fields of class xwide (every one of them occurs in
+	// document 0, and a composite field is added: the segment has NumFields+2 fields)
+	NumFields int
 	Syn       bool     // add synonym documents
 	Vec       bool     // add vector fields
 	IDPrefix  string   // make ids of different batches distinct (or equal, for update-like merges)
@@ -320,6 +323,7 @@ func Gen(rng *rand.Rand, class string, o GenOpts) *Batch {
 	}
 	AddShapes(b, 11)
 	DropTermVectorFlags(b, 9)
+	InterleaveFields(b, 5)
 	if o.Vec {
 		salt := o.VecSalt
 		if salt == 0 {
@@ -572,23 +576,27 @@ func genMulti(rng *rand.Rand, o GenOpts) *Batch {
 
 func genXWide(rng *rand.Rand, o GenOpts) *Batch {
 	b := &Batch{}
-	nf := 129 + rng.Intn(20)
+	// field counts around 64 (bit masks), 128 and 256 (one more varint / byte), 129..148
+	nf := []int{129 + rng.Intn(20), 62, 63, 64, 65, 126, 127, 130, 254, 255, 256, 140}[rng.Intn(12)]
+	if o.NumFields > 0 {
+		nf = o.NumFields
+	}
 	nDocs := 2 + rng.Intn(3)
 	for d := 0; d < nDocs; d++ {
 		doc := Doc{ID: fmt.Sprintf("%sxw%d", o.IDPrefix, d), IDLast: d%2 == 1}
 		for i := 0; i < nf; i++ {
-			if rng.Intn(5) == 0 && i != 126 && i != 127 && i != 128 {
+			if rng.Intn(5) == 0 && i != 126 && i != 127 && i != 128 && i != nf-1 && d != 0 {
 				continue
 			}
 			name := fmt.Sprintf("w%03d", i)
-			f := FieldInst{Name: name, Type: 't', TV: true, Len: 2, Stored: i%7 == 0, DV: i%5 == 0}
+			f := FieldInst{Name: name, Type: 't', TV: true, Len: 2, Stored: i%7 == 0 || i == nf-1, DV: i%5 == 0}
 			if f.Stored {
 				f.Value = []byte(name)
 			}
 			f.Toks = []Tok{{Term: TermPool[rng.Intn(4)], Freq: 1, Locs: []Loc{{Pos: 1, Start: uint64(i), End: uint64(i + 2)}}}, {Term: "z", Freq: 1, Locs: []Loc{{Pos: 2, Start: 3, End: 4}}}}
 			doc.Fields = append(doc.Fields, f)
 		}
-		if rng.Intn(2) == 0 {
+		if rng.Intn(2) == 0 || o.NumFields > 0 {
 			doc.Composite = []FieldInst{compose("_all", doc.Fields)}
 		}
 		b.Docs = append(b.Docs, doc)
@@ -738,6 +746,8 @@ func genHuge(rng *rand.Rand, o GenOpts) *Batch {
 				doc.Vecs = append(doc.Vecs, VecField{Name: "vec", Dims: dims, Metric: metric, Opt: opt, Vec: genVec(rng, dims)})
 			}
 		}
+		// one term in every document: its postings fill a whole 65536-document container
+		doc.Fields = append(doc.Fields, FieldInst{Name: "zdense", Type: 't', Len: 1, Toks: []Tok{{Term: "all", Freq: 1}}})
 		b.Docs = append(b.Docs, doc)
 	}
 	if o.Syn {
@@ -746,4 +756,33 @@ func genHuge(rng *rand.Rand, o GenOpts) *Batch {
 		}
 	}
 	return b
+}
+
+// InterleaveFields reorders the field instances of every `every`-th document
+// round-robin by name (name[0], tag[0], name[1], tag[1], ... - the shape of an
+// array of objects), keeping the order of the instances of each name.
+func InterleaveFields(b *Batch, every int) {
+	for di := range b.Docs {
+		if di%every != every-2 || len(b.Docs[di].Fields) < 3 {
+			continue
+		}
+		var names []string
+		by := map[string][]FieldInst{}
+		for _, f := range b.Docs[di].Fields {
+			if _, ok := by[f.Name]; !ok {
+				names = append(names, f.Name)
+			}
+			by[f.Name] = append(by[f.Name], f)
+		}
+		out := make([]FieldInst, 0, len(b.Docs[di].Fields))
+		for len(out) < len(b.Docs[di].Fields) {
+			for _, n := range names {
+				if len(by[n]) > 0 {
+					out = append(out, by[n][0])
+					by[n] = by[n][1:]
+				}
+			}
+		}
+		b.Docs[di].Fields = out
+	}
 }
